@@ -98,6 +98,7 @@ def doAccess (mode world spine checker impl : String) : String :=
 def handle (line : String) : String :=
   match line.splitOn "\t" with
   | ["access", mode, world, spine, checker, _, impl] => doAccess mode world spine checker impl
+  | ["access3", mode, world, spine, checker, _, impl] => doAccess mode world spine checker impl
   | ["c16x", n, p, _] =>
     match n.toNat?, Bytes.ofHex p with
     | some n, some p => s!"{c16Row n p}\t-"
